@@ -71,7 +71,7 @@ func (g *vfc15GenCtx) read(label string) vfc15Step {
 
 func (g *vfc15GenCtx) mutation(label string) vfc15Step {
 	t := g.t
-	k := rapid.IntRange(0, 61).Draw(t, label+".mut")
+	k := rapid.IntRange(0, 74).Draw(t, label+".mut")
 	st := vfc15Step{}
 	switch {
 	case k < 6:
@@ -143,13 +143,32 @@ func (g *vfc15GenCtx) mutation(label string) vfc15Step {
 	case k < 60:
 		st.Op = "heal"
 		st.Broker = rapid.IntRange(0, 4).Draw(t, label+".broker")
-	default:
+	case k < 62:
 		st.Op = "scriptNext"
 		st.N = rapid.IntRange(1, 3).Draw(t, label+".n")
 		if rapid.Bool().Draw(t, label+".witherr") {
 			st.Code = rapid.SampledFrom(vfc15TopicErrs).Draw(t, label+".code")
 		}
 		st.DelayUs = rapid.SampledFrom([]int{0, 0, 100, 400, 1500}).Draw(t, label+".delay")
+	case k < 64:
+		st.Op = "downSeeds"
+	case k < 66:
+		st.Op = "upAll"
+	case k < 69:
+		st.Op = "readdr"
+		st.Broker = rapid.IntRange(0, 4).Draw(t, label+".broker")
+		st.Variant = rapid.IntRange(0, 3).Draw(t, label+".variant")
+	case k < 74:
+		st.Op = "replicas"
+		st.Topic = g.topic(label + ".topic")
+		st.Part = rapid.IntRange(0, 5).Draw(t, label+".part")
+		st.Ids = g.ids(label + ".replicas")
+		st.Isr = g.ids(label + ".isr")
+		st.Offline = g.ids(label + ".offline")
+	default:
+		st.Op = "scriptNext"
+		st.N = rapid.IntRange(1, 2).Draw(t, label+".n")
+		st.DelayUs = rapid.SampledFrom([]int{100, 400, 1500}).Draw(t, label+".delay")
 	}
 	return st
 }
@@ -211,7 +230,7 @@ func vfc15Gen(t *rapid.T) *vfc15Case {
 	for i := 0; i < ns; i++ {
 		k := rapid.IntRange(0, 9).Draw(t, fmt.Sprintf("seed%d", i))
 		addr := vfBrokerAddr(int32(1 + k%nb))
-		if k >= 8 {
+		if k >= 9 {
 			addr = fmt.Sprintf("nowhere%d:9092", k)
 		}
 		if !seen[addr] {
@@ -232,7 +251,7 @@ func vfc15Gen(t *rapid.T) *vfc15Case {
 		}
 		c.Topics = append(c.Topics, tp)
 	}
-	if rapid.IntRange(0, 5).Draw(t, "pre") == 0 {
+	if nb >= 2 && rapid.IntRange(0, 5).Draw(t, "pre") == 0 {
 		st := vfc15Step{Broker: rapid.IntRange(0, 3).Draw(t, "pre.broker")}
 		if rapid.Bool().Draw(t, "pre.kind") {
 			st.Op = "down"
@@ -241,7 +260,7 @@ func vfc15Gen(t *rapid.T) *vfc15Case {
 		}
 		c.Pre = append(c.Pre, st)
 	}
-	na := rapid.IntRange(4, 16).Draw(t, "stepsA")
+	na := rapid.IntRange(6, 18).Draw(t, "stepsA")
 	for i := 0; i < na; i++ {
 		c.StepsA = append(c.StepsA, g.step(fmt.Sprintf("a%d", i), false))
 	}
